@@ -58,4 +58,25 @@ CHECKS = {
         ],
         fuzz=[dict(target="FuzzStoreValue", secs=(0, 45)), dict(target="FuzzUnmarshalDataValue", secs=(0, 45)), dict(target="FuzzParseResponse", secs=(0, 30))],
     ),
+    "C01": dict(
+        pkg="./csched", level="exploration",
+        runs=[
+            dict(name="sched", run="^TestC01Exclusion$", checks=(6000, 60000), shards=(4, 16)),
+            dict(name="stress", run="^TestC01Stress$", checks=(400, 4000), shards=(2, 4)),
+        ],
+    ),
+    "C02": dict(
+        pkg="./csched", level="exploration",
+        runs=[
+            dict(name="sched", run="^TestC02OrderExactlyOnce$", checks=(6000, 60000), shards=(4, 16)),
+            dict(name="stress", run="^TestC02Stress$", checks=(400, 4000), shards=(2, 4)),
+        ],
+    ),
+    "C03": dict(
+        pkg="./csched", level="exploration",
+        runs=[
+            dict(name="sched", run="^TestC03Shutdown$", checks=(6000, 60000), shards=(4, 16)),
+            dict(name="regress", run="^TestRegress", shards=(1, 1)),
+        ],
+    ),
 }
